@@ -229,6 +229,21 @@ theorem C18_missing_false (o : Orc) (a0 a1 : Bytes) (fold : Bool) (r : Req) :
       rcases C17.parseTimeOfDay o.x a0 with _ | _ | ⟨s1, o1⟩ <;>
         rcases C17.parseTimeOfDay o.x a1 with _ | _ | ⟨s2, o2⟩ <;> simp
 
+/-- the time of day the periodic matcher compares is the LOCAL time of day in the zone of the pattern
+    (`tm.In(time.FixedZone(offset)).Clock()`): the unique s in [0, 86400) with t + offset = 86400·k + s —
+    also when the local date is the previous or the next day (zones west / east of UTC). -/
+theorem C18_periodic_local_time (t off s : Int) :
+    clockSecs t off = s ↔ (0 ≤ s ∧ s < 86400 ∧ ∃ k : Int, t + off = 86400 * k + s) := by
+  unfold clockSecs
+  constructor
+  · intro h; exact ⟨by omega, by omega, (t + off) / 86400, by omega⟩
+  · rintro ⟨h0, h1, k, hk⟩; omega
+
+/-- 00:59:58 UTC in zone Y (UTC-12) is 12:59:58 of the previous day; a remainder that keeps the sign
+    (Go's `%`, `Int.tmod`) would give a negative time of day instead. -/
+theorem C18_periodic_west_of_utc :
+    clockSecs 3598 (-43200) = 46798 ∧ Int.tmod (3598 + (-43200)) 86400 = -39602 := by decide
+
 /-! ### witnesses: the full statement is false on the current tree -/
 def orc0 : Orc :=
   { x := { regexOk := fun _ => true, parseIP := fun _ => none, parseTime := fun _ => none, sscanf6 := fun _ => none },
